@@ -123,7 +123,7 @@ func (x *Exec) render(st *State, tail []string) string {
 			jt := x.ifaceSet[jk]
 			// every type implementing I implements J when I's method set includes J's
 			if types.Implements(types.NewInterfaceType(methodsOf(it), nil).Complete(), jt) {
-				fmt.Fprintf(&b, "(assert (forall ((t Int)) (=> (%s t) (impl_%s t))))\n", uf, sanitize(jk))
+				fmt.Fprintf(&b, "(assert (forall ((t Int)) (! (=> (%s t) (impl_%s t)) :pattern ((%s t)))))\n", uf, sanitize(jk), uf)
 			}
 		}
 	}
